@@ -34,6 +34,7 @@ def _count_rule(ctx, V, f, name):
 
 
 def check(ctx):
+    fetch_returns_what_is_stored(ctx)
     ctx.rule("T2-assign", "output.value/truth/stamp assigned exactly once on every normal path of each update")
     ctx.rule("T9-compare", "strict > against default truth; selection/importance comparison shapes")
     ctx.rule("T2-accumulate", "weighted arbiter: every selected input contributes to all three sums")
@@ -117,3 +118,21 @@ def check(ctx):
         ok = all({"self.insels.fetch(tag)", "self.FixTruth(input.truth) > self.default.truth"} <= U.symfacts(p) for p in picks)
         ctx.check(ok, "T9-compare", up, "%s: every selection is guarded by `sel` and `truth > self.default.truth` (strict)" % cn,
                   "an input whose truth merely equals the default truth (or that is not selected) can displace the default output")
+
+
+def fetch_returns_what_is_stored(ctx):
+    """the arbiters read selection, importance and truth of their inputs with Share.fetch(field): it returns the stored value as
+    it is - 0, 0.0 and False are values, not `missing`"""
+    ctx.rule("T9-fetch", "Share.fetch(field, default) returns self.get(field, default): the default stands in for an absent field only")
+    f = ctx.cls("storing", "Share").own_method("fetch")
+    V = FuncView(ctx, f)
+    rets = [n for n in V.cfg.nodes if n.kind == "return"]
+    ok = len(rets) == 1
+    if ok:
+        v = V.sym(rets[0].ast.value, rets[0])
+        ps = [a.arg for a in f.args.args[1:3]]
+        ok = isinstance(v, ast.Call) and src(v).replace(" ", "") in ("self.get(%s,%s)" % tuple(ps), "getattr(self._data,%s,%s)" % tuple(ps),
+                                                                      "self._data.get(%s,%s)" % tuple(ps))
+    ctx.check(ok, "T9-fetch", f, "Share.fetch returns self.get(field, default)",
+              "`self.get(field) or default` turns a stored importance of 0 (or a truth of 0.0) into None: the priority and trusted "
+              "arbiters then raise TypeError comparing it, the weighted arbiter silently outputs its default")
